@@ -171,13 +171,23 @@ fn check_cut(p: P, input: &[u8], obs: &mut Obs) -> R {
                 ensure!(c2 == ctype && v2 == version && l2 as usize == l, format!("C02:{}:header-fields", pn),
                     "{:?}: header decoded as type {:#04x} version {:#06x} len {}, wire has type {:#04x} version {:#06x} len {}", p, c2, v2, l2, ctype, version, l);
                 let want_rem = &input[5 + l..];
-                ensure!(rem.len() == want_rem.len() && (rem.is_empty() || rem.as_ptr() == want_rem.as_ptr()), format!("C02:{}:remainder", pn),
+                // also when it is empty: "everything after them" starts where the record ends. nom's `recognize` / `consumed` / `Offset`
+                // compute positions from the address of the remainder, so a detached empty slice breaks every caller that composes
+                // these parsers (checked below through nom itself)
+                ensure!(rem.len() == want_rem.len() && rem.as_ptr() == want_rem.as_ptr(), format!("C02:{}:remainder", pn),
                     "{:?}: remainder must be the input after 5+{} bytes ({} bytes), got {} bytes at offset {:?}", p, l, want_rem.len(), rem.len(), (rem.as_ptr() as usize).wrapping_sub(input.as_ptr() as usize));
                 if let Some(d) = data {
                     let want = &input[5..5 + l];
-                    ensure!(d.len() == l && (l == 0 || d.as_ptr() == want.as_ptr()), format!("C02:{}:payload", pn),
+                    ensure!(d.len() == l && d.as_ptr() == want.as_ptr(), format!("C02:{}:payload", pn),
                         "{:?}: payload must be exactly input[5..5+{}], got {} bytes at offset {:?}", p, l, d.len(), (d.as_ptr() as usize).wrapping_sub(input.as_ptr() as usize));
                 }
+                // the parser composed with nom's own combinators: `recognize` must hand back exactly the 5+l consumed bytes
+                let rec = guard("nom::combinator::recognize over the record parser", || match p {
+                    P::Plain => tls_parser::nom::combinator::recognize(parse_tls_plaintext)(input).map(|(r, c)| (r.len(), c.len(), c.as_ptr() as usize)).map_err(|e| e.map(|x| x.code)),
+                    P::Enc => tls_parser::nom::combinator::recognize(parse_tls_encrypted)(input).map(|(r, c)| (r.len(), c.len(), c.as_ptr() as usize)).map_err(|e| e.map(|x| x.code)),
+                    P::Raw => tls_parser::nom::combinator::recognize(parse_tls_raw_record)(input).map(|(r, c)| (r.len(), c.len(), c.as_ptr() as usize)).map_err(|e| e.map(|x| x.code)),
+                })?;
+                ensure!(rec == Ok((pl - 5 - l, 5 + l, input.as_ptr() as usize)), format!("C02:{}:recognize", pn), "recognize({:?}) on a {}-byte input holding a record of 5+{} bytes gives {:?} (remainder length, recognised length, address), expected the first {} bytes", p, pl, l, rec, 5 + l);
                 Ok(())
             }
         }
